@@ -364,8 +364,12 @@ Section Locs.
       - cbn [forallb] in Hes. apply andb_prop in Hes. destruct Hes as [He Hes].
         cbn [local_eval] in H. inv_bind H. destruct a as [[s2 ofn] sub].
         destruct (Hce _ _ _ _ _ _ He Hs pv_ok_empty Hb) as [Hs2 [Hofn Hsub]].
-        destruct names as [|nm names]; [injection H as <- <-; split; [exact Hs2|reflexivity]|].
-        destruct locs as [|l locs]; [injection H as <- <-; split; [exact Hs2|reflexivity]|].
+        destruct names as [|nm names];
+          [inv_bind H; destruct a as [s3 rs0]; injection H as <- <-;
+           destruct (IH _ _ _ _ _ Hes Hs2 Hb0) as [Hs3 _]; split; [exact Hs3|reflexivity]|].
+        destruct locs as [|l locs];
+          [inv_bind H; destruct a as [s3 rs0]; injection H as <- <-;
+           destruct (IH _ _ _ _ _ Hes Hs2 Hb0) as [Hs3 _]; split; [exact Hs3|reflexivity]|].
         inv_bind H. destruct a as [s3 rs0]. injection H as <- <-.
         destruct (IH _ _ _ _ _ Hes Hs2 Hb0) as [Hs3 Hrs]. split; [exact Hs3|].
         cbn [rs_match]. exists (ofn, sub), rs0. repeat split; auto.
